@@ -11,6 +11,7 @@ CONSTANTS
   MaxNil = 1
   MaxReadSkip = 1
   SkipOnSaveFail = TRUE
+  SerialStorage = FALSE
   MaxSteps = 30
   MaxEmptyPops = 2
 INVARIANTS Emit GenInvariants
